@@ -175,7 +175,13 @@ def _dump_tuple(obj, stream):
 
 
 def _undumpable(obj, stream):
-    raise TypeError("cannot dump %r" % (obj,))
+    # the refusal must be a TypeError whatever the object's own __repr__ does (it may raise, recurse, or talk to a
+    # closed connection)
+    try:
+        desc = repr(obj)
+    except Exception:
+        desc = "<%s object>" % (type(obj).__name__,)
+    raise TypeError("cannot dump %s" % (desc,))
 
 
 def _dump(obj, stream):
@@ -291,13 +297,21 @@ def _load_tup4(stream):
 @register(_load_registry, TAG_TUP_L1)
 def _load_tup_l1(stream):
     l, = I1.unpack(stream.read(1))
-    return tuple(_load(stream) for i in range(l))
+    # a plain loop, not a generator expression: the latter costs one more stack frame per nesting level than
+    # `_dump_tuple` needs, so a peer could encode a nested tuple that the receiver could not decode
+    items = []
+    for _ in range(l):
+        items.append(_load(stream))
+    return tuple(items)
 
 
 @register(_load_registry, TAG_TUP_L4)
 def _load_tup_l4(stream):
     l, = I4.unpack(stream.read(4))
-    return tuple(_load(stream) for i in range(l))
+    items = []
+    for _ in range(l):
+        items.append(_load(stream))
+    return tuple(items)
 
 
 @register(_load_registry, TAG_SLICE)
